@@ -77,6 +77,8 @@ CLAIMED = {
         design="4/C20, Appendix Q"),
 }
 
+INTEGRATED = {"C01", "C17", "C16", "C11", "C05", "C19", "C12", "C13", "C15"}
+
 NOT_YET = "check not built yet in this revision (planned, see DESIGN.md section 4)"
 
 
@@ -91,8 +93,9 @@ def load_plugins():
         except Exception as e:
             print("WARNING: %s does not load: %s" % (f, e))
             continue
-        if getattr(m, "READY", False):  # set by the lead once the component is integrated and quiet on the unchanged tree
-            CLAIMED.update(getattr(m, "MANIFEST", {}))
+        for pid, entry in getattr(m, "MANIFEST", {}).items():
+            if pid in INTEGRATED:  # components integrated by the lead and quiet on the unchanged tree
+                CLAIMED[pid] = entry
 
 
 def main():
